@@ -121,6 +121,9 @@ class Gen:
         self.p = platform(rng, ti, profiles="profile" in feats)
         self.nid = 0
         self.multi = [h for h in self.p["hosts"] if len(h["speeds"]) > 1]
+        # a repeating profile generates events forever: no 1e2..1e5 s activity on such a platform (run time of the check, nothing else)
+        self.repeating = any((h.get("profile") or {}).get("period", -1) > 0 for h in self.p["hosts"]) or \
+            any((l.get(k) or {}).get("period", -1) > 0 for l in self.p["links"] for k in ("bwprof", "latprof"))
 
     def duration(self):
         rng = self.rng
@@ -139,7 +142,7 @@ class Gen:
             fl = rng.choice([1.0, 1e-3, 1e-6, 2e-5])
         else:
             fl = float("%.6g" % (d * sp))
-            if "huge" in self.feats and not h.get("profile") and rng.random() < 0.1:
+            if "huge" in self.feats and not self.repeating and rng.random() < 0.1:
                 fl = float("%.6g" % (sp * logu(rng, 1e2, 1e5)))
         bound = -1.0
         if "bound" in self.feats and not self.ti and rng.random() < 0.3:
